@@ -22,6 +22,8 @@ Definition ex_sig : dsig :=
 
 Definition ex_json : cfg := mkcfg PJson true false false false.
 Definition ex_mp : cfg := mkcfg PMsgpack true false false false.
+(** MessagePackRpc(validator='soft') *)
+Definition ex_rpc : cfg := mkcfg PMsgpackRpc true false false true.
 (** JsonDocument(ignore_wrappers=False, polymorphic=True, validator='soft') *)
 Definition ex_wrapped : cfg := mkcfg PJson false false true true.
 (** JsonDocument(ignore_wrappers=False, complex_as=list) *)
